@@ -53,7 +53,10 @@ TRUSTED = [
 ASSUMPTIONS = [
     "EPR sockets are matched (socket s at A names (B, t) iff socket t at B names (A, s)) and a request names the node "
     "its socket is bound to -- the SDK contract",
-    "one blocking host per node (the next message is sent after the Done of the previous one)",
+    "one host per node; it is blocking (the next message is sent after the Done of the previous one) except in the "
+    "directed concurrent-create scenarios, where ONE host submits its 2-3 create-and-keep subroutines (two or three "
+    "sockets to one peer, or towards two neighbours) without waiting for the previous Done, so that several create "
+    "requests are in flight at one node at once; all requests of such a scenario go in directions that do not cross",
     "virtual nodes have capacity for the requested pairs (a refusal for lack of capacity is C11's subject; the leak it "
     "causes is reported under the key create-failure-leaks)",
     "error-free histories: the Lean theorems speak about runs of the model without an error result",
@@ -276,10 +279,14 @@ def sub_scenario(sc, keep, fifo):
             if ops:
                 subs.append(ops)
         progs[n] = subs
-    return {"id": "%s/reqs%s%s" % (sc["id"], keep, "/fifo" if fifo else ""), "nodes": sc["nodes"],
-            "links": [sc["links"][i] for i in link_ids], "reqs": reqs, "progs": progs,
-            "sched": {"kind": "fifo", "seed": 0} if fifo else sc["sched"],
-            "starts": {n: 0 for n in sc["nodes"]} if fifo else sc["starts"], "rng": sc["rng"]}
+    out = {"id": "%s/reqs%s%s" % (sc["id"], keep, "/fifo" if fifo else ""), "nodes": sc["nodes"],
+           "links": [sc["links"][i] for i in link_ids], "reqs": reqs, "progs": progs,
+           "sched": {"kind": "fifo", "seed": 0} if fifo else sc["sched"],
+           "starts": {n: 0 for n in sc["nodes"]} if fifo else sc["starts"], "rng": sc["rng"]}
+    if sc.get("pipeline"):
+        out["pipeline"] = list(sc["pipeline"])
+        out["pipe_gap"] = 0 if fifo else sc.get("pipe_gap", 0)
+    return out
 
 
 def shrink_candidates(sc):
@@ -439,6 +446,9 @@ class Runner:
             return nq.rng.choices(population, weights, **kw)
         EX.random = S._RandomProxy(nq.rng, choices=my_choices)
         curpair, currecv = {}, {}
+        cidmap = {}                         # (node, remote node id, create id) -> request record
+        allpairs = {n: [] for n in nodes}   # per node: every cmd_epr record
+        maxopen = {}                        # per node: largest number of cmd_epr running at the same time
         reqlog = {n: [] for n in nodes}     # per node: request records in program order
         sample_log = []                     # (RandomBasis name, spec, what random.choices received or None, basis)
 
@@ -473,13 +483,21 @@ class Runner:
                 def new_id(remote_node_id):
                     c = o_newid(remote_node_id=remote_node_id)
                     ev.append(("newcreate", n, remote_node_id, c))
+                    # _do_create_epr draws the id before its first yield: the request being started is the last one logged
+                    # (with several requests in flight at this node, "the last one" is no longer right later on)
+                    mine = [q for q in reqlog[n] if q["role"] == "c"]
+                    if mine:
+                        cidmap[(n, remote_node_id, c)] = mine[-1]
                     return c
 
                 def cmd_epr(**kw):
                     rec = {"cid": kw["create_id"], "remote": kw["remote_node_id"], "sock": kw["epr_socket_id"],
                            "rsock": kw["remote_epr_socket_id"], "qid": kw["qubit_id"],
-                           "typ": kw["create_request"].type.name, "meas": [], "req": reqlog[n][-1], "done": None}
+                           "typ": kw["create_request"].type.name, "meas": [],
+                           "req": cidmap.get((n, kw["remote_node_id"], kw["create_id"]), reqlog[n][-1]), "done": None}
                     curpair[n] = rec
+                    allpairs[n].append(rec)
+                    maxopen[n] = max(maxopen.get(n, 0), sum(1 for r in allpairs[n] if r["done"] is None))
                     d = o_epr(**kw)
 
                     def fin(x, rec=rec):
@@ -511,6 +529,12 @@ class Runner:
 
                 def add(fromName, from_sock, to_sock, new_virt_num, rawEntInfo):
                     rec = curpair.get(fromName)
+                    raw = list(rawEntInfo)
+                    # several pairs in flight at the creator: the one this half belongs to, by its entanglement info
+                    mine = [r for r in allpairs.get(fromName, []) if r["done"] is None and r["sock"] == from_sock
+                            and len(raw) > 2 and r["cid"] == raw[1] and (r["typ"] != "K" or r["qid"] == raw[2])]
+                    if len(mine) == 1:
+                        rec = mine[0]
                     ev.append(("pair", fromName, n, from_sock, to_sock, rec, list(rawEntInfo)))
                     return o_add(fromName, from_sock, to_sock, new_virt_num, rawEntInfo)
 
@@ -528,7 +552,9 @@ class Runner:
             if progs.get(n):
                 p, t = nq.host(n)
                 hosts[n] = {"p": p, "t": t, "msgs": progs[n][0], "stop": progs[n][1], "sent": 0, "seen": 0, "done": 0,
-                            "start": sc["starts"].get(n, 0)}
+                            "start": sc["starts"].get(n, 0), "pipe": n in (sc.get("pipeline") or []), "next_at": 0,
+                            "nsetup": sum(1 for m in progs[n][0] if not _is_subroutine(m))}
+        gap = sc.get("pipe_gap", 0)
         sched = self.make_sched(sc["sched"])
         steps, hang = 0, None
         t0 = nq.clock.seconds()
@@ -541,9 +567,14 @@ class Runner:
                 if len(v) != h["seen"]:
                     h["seen"] = len(v)
                     h["done"] = sum(1 for x in S.parse_replies(v) if x[0] == "MsgDoneMessage")
-                if h["sent"] < len(h["msgs"]) and h["done"] >= h["sent"] and steps >= h["start"]:
+                # a pipelined host waits for the Done of its set-up messages only, then submits its subroutines
+                # `gap` scheduler steps apart without waiting for the previous one to finish
+                ready = h["done"] >= h["sent"] or (h["pipe"] and h["sent"] >= h["nsetup"] and h["done"] >= h["nsetup"]
+                                                   and steps >= h["next_at"])
+                if h["sent"] < len(h["msgs"]) and ready and steps >= h["start"]:
                     nq.feed(h["p"], S.frame(h["sent"], h["msgs"][h["sent"]]))
                     h["sent"] += 1
+                    h["next_at"] = steps + gap
                     fed = True
             pend = nq.pending()
             tim = nq.timers() if nq.clock.calls else []
@@ -551,8 +582,8 @@ class Runner:
                 if fed:
                     continue
                 waiting = [n for n in order if hosts[n]["sent"] < len(hosts[n]["msgs"]) and hosts[n]["done"] >= hosts[n]["sent"]]
-                if waiting:     # only the start delay keeps them back
-                    steps = max(hosts[n]["start"] for n in waiting)
+                if waiting:     # only the start delay (or the gap of a pipelined host) keeps them back
+                    steps = max(max(hosts[n]["start"], hosts[n]["next_at"]) for n in waiting)
                     continue
                 break
             action = sched(nq, pend, tim)
@@ -574,7 +605,7 @@ class Runner:
         inflight = {n: {"typ": r["typ"], "remote": names.get(r["remote"]), "sock": r["sock"]}
                     for n, r in curpair.items() if r["done"] is None}
         obs = {"ids": ids, "names": names, "ev": ev, "inflight": inflight, "locks": nq.lock_flags(),
-               "samples": sample_log, "choices": choices_log, "reqlog": reqlog, "replies": replies,
+               "samples": sample_log, "choices": choices_log, "reqlog": reqlog, "replies": replies, "maxopen": maxopen,
                "snap": snap, "joint": joint, "hang": hang, "steps": steps,
                "unfinished": [n for n in hosts if hosts[n]["done"] < len(hosts[n]["msgs"])],
                "errors": [(lv, lg, tx.split("\n")[0]) for (lv, lg, tx) in nq.pylog if lv == "ERROR"],
@@ -589,6 +620,11 @@ class Runner:
             obs["snap_after_stop"] = nq.snapshot()
         nq.close()
         return obs
+
+
+def _is_subroutine(raw):
+    from netqasm.backend.messages import deserialize_host_msg
+    return type(deserialize_host_msg(raw)).__name__ == "SubroutineMessage"
 
 
 # --------------------------------------------------------------------------
@@ -916,7 +952,11 @@ def run(ctx):
             res.count("req:%s" % r["typ"] + (":%s/%s" % (r["rbl"], r["rbr"]) if r["typ"] == "M" else ""))
             res.count("pairs", r["n"])
         res.count("empty-polls", sum(1 for e in obs["ev"] if e[0] == "recv" and e[4] is None))
-        res.case({k: sc[k] for k in ("nodes", "links", "reqs", "progs", "sched", "starts")}, nontrivial=True)
+        res.case({k: sc[k] for k in ("nodes", "links", "reqs", "progs", "sched", "starts", "pipeline", "pipe_gap") if k in sc},
+                 nontrivial=True)
+        if sc.get("pipeline"):
+            # how many pairs were being created at one node at the same time (the point of these scenarios)
+            res.count("concurrent:max-pairs-in-flight-at-one-node=%d" % max(list(obs["maxopen"].values()) + [0]))
         if bad:
             seen = set()
             for key, what in bad:
@@ -962,6 +1002,9 @@ def run(ctx):
         one(sc, "corpus")
     # ---- receiver at capacity (F13; C11's subject, keyed separately)
     capacity_case(runner, res, capacity_scenario(), {"max_qubits": 3, "fill": {"Bob": 3}})
+    # ---- several create requests in flight at ONE node at once (one host, non-crossing directions)
+    for sc in concurrent_scenarios(ctx.rng, ctx.scale(2, 12)):
+        one(sc, "concurrent")
     # ---- random scenarios
     nsc = ctx.scale(600, 9000)
     for i in range(nsc):
@@ -1074,6 +1117,63 @@ def corpus():
                    {"link": 0, "dir": 1, "n": 1, "typ": "K"}],
                   {"Alice": [[["c", 0]], [["r", 2]]], "Charlie": [[["c", 1]]], "Bob": [[["r", 0], ["r", 1]], [["c", 2]]]},
                   sched={"kind": "pct", "seed": 3, "depth": 3}, starts={"Alice": 0, "Bob": 60, "Charlie": 5}))
+    return out
+
+
+def concurrent_scenarios(rng, rounds):
+    """ONE host has two or three create-and-keep requests in flight at its node at the same time: it submits one
+    subroutine per request without waiting for the Done of the previous one -- on two / three sockets to the same
+    peer, and towards two different neighbours (3 nodes).  The peers are ordinary blocking hosts with the matching
+    receives.  Every request goes from the pipelined host outwards, so no two requests cross (the crossing deadlock
+    and the capacity leak are known findings with their own scenarios).  Judged by the ordinary oracle."""
+    shapes = []
+
+    def shape(name, nodes, links, reqs):
+        creator = nodes[0]
+        progs = {n: [] for n in nodes}
+        for i, r in enumerate(reqs):
+            a, _, b, _ = links[r["link"]]
+            c, rcv = (a, b) if r["dir"] == 0 else (b, a)
+            assert c == creator and rcv != creator
+            progs[c].append([["c", i]])
+            progs[rcv].append([["r", i]])
+        shapes.append((name, nodes, links, [dict(r, typ="K") for r in reqs], progs))
+
+    for names in (["Alice", "Bob", "Charlie"], ["Charlie", "Alice", "Bob"], ["Bob", "Charlie", "Alice"]):
+        a, b, c = names
+        # two sockets to the same peer
+        shape("2-sockets", [a, b], [[a, 0, b, 0], [a, 1, b, 1]], [{"link": 0, "dir": 0, "n": 1}, {"link": 1, "dir": 0, "n": 1}])
+        shape("2-sockets-n2", [a, b], [[a, 0, b, 2], [b, 0, a, 3]], [{"link": 0, "dir": 0, "n": 2}, {"link": 1, "dir": 1, "n": 2}])
+        # three sockets to the same peer
+        shape("3-sockets", [a, b], [[a, 0, b, 0], [a, 1, b, 1], [b, 2, a, 2]],
+              [{"link": 0, "dir": 0, "n": 1}, {"link": 1, "dir": 0, "n": 2}, {"link": 2, "dir": 1, "n": 1}])
+        # towards two different neighbours
+        shape("2-neighbours", [a, b, c], [[a, 0, b, 0], [a, 1, c, 0]], [{"link": 0, "dir": 0, "n": 1}, {"link": 1, "dir": 0, "n": 1}])
+        shape("2-neighbours-n2", [a, b, c], [[b, 1, a, 0], [a, 1, c, 2]], [{"link": 0, "dir": 1, "n": 2}, {"link": 1, "dir": 0, "n": 2}])
+        # two sockets to one neighbour and one to the other
+        shape("3-mixed", [a, b, c], [[a, 0, b, 0], [a, 1, c, 0], [a, 2, b, 1]],
+              [{"link": 0, "dir": 0, "n": 1}, {"link": 1, "dir": 0, "n": 2}, {"link": 2, "dir": 0, "n": 1}])
+    out = []
+    k = 0
+    for rnd in range(rounds):
+        for (name, nodes, links, reqs, progs) in shapes:
+            scheds = [{"kind": "fifo", "seed": 0}] if rnd == 0 else []
+            scheds.append({"kind": "random", "seed": rng.randrange(1 << 30)})
+            scheds.append({"kind": "delay", "seed": rng.randrange(1 << 30),
+                           "what": rng.choice(["call:netqasm_send_epr_half", "call:add_qubit", "call:netqasm_add_epr_list",
+                                               "call:new_qubit", "call:cnot_onto", "answer"]),
+                           "k": rng.randrange(8), "until": rng.choice([1, 3, 8, 20, 60]), "timers": rng.random() < 0.5})
+            if rng.random() < 0.34:
+                scheds.append({"kind": "pct", "seed": rng.randrange(1 << 30), "depth": rng.choice([2, 3, 4])})
+            for sd in scheds:
+                fifo = sd["kind"] == "fifo"
+                out.append({"id": "concurrent%d:%s:%s" % (k, name, sd["kind"]), "nodes": list(nodes),
+                            "links": [list(l) for l in links], "reqs": [dict(r) for r in reqs],
+                            "progs": {n: [[list(op) for op in sub] for sub in subs] for n, subs in progs.items()},
+                            "sched": sd, "starts": {n: 0 if fifo else rng.choice([0, 0, 0, 3, 10, 40]) for n in nodes},
+                            "pipeline": [nodes[0]], "pipe_gap": 0 if fifo else rng.choice([0, 0, 1, 2, 5, 12]),
+                            "rng": rng.randrange(1 << 30)})
+                k += 1
     return out
 
 
